@@ -10,8 +10,12 @@ EXPLANATION = (
     "every shorthand (xy, cxy, xy1, xy2, wh, rxy, dxy, dwh, xy-loc) is popped, and its two components are inserted, first "
     "component to the x-like longhand and second to the y-like longhand of the reference table; (3) axis consistency: in the "
     "geometry code every value written to an x-axis attribute is computed only from x-axis quantities (and likewise for y), "
-    "so an offset or coordinate of the other axis cannot leak in. Undecided: equality of geometry across the 36 constraint "
-    "pairs and all spellings (arithmetic of extent / three_point)."
+    "so an offset or coordinate of the other axis cannot leak in. (4) constraint algebra: every arm of Position::extent / three_point is an affine form of the "
+    "constraints it binds and satisfies each of them (start = A, end = B, middle = (A+B)/2, length = B-A, checked exactly over "
+    "the rationals on the syntax tree), all six constraint pairs are covered, and x_def / y_def / to_bbox pass the fields in "
+    "the matching roles - so any two spellings that describe the same box produce the same box (up to float rounding); (5) "
+    "every shorthand value is split by the one shared tokenizer (attr_split_cycle), so separators are understood alike. "
+    "Undecided: float rounding, and which constraint wins when a shape is over-determined."
 )
 TRUSTED = []
 ASSUMPTIONS = ["identifiers x*, cx, width, w, rx, dx, dw name x-axis quantities and y*, cy, height, h, ry, dy, dh y-axis quantities in the geometry code (the code base's own vocabulary)"]
@@ -43,6 +47,8 @@ def run(prog, chk):
     native_only(prog, chk)
     shorthands(prog, chk)
     axis_consistency(prog, chk)
+    constraint_algebra(prog, chk)
+    single_tokenizer(prog, chk)
 
 
 def _arms(owner):
@@ -250,3 +256,139 @@ def axis_consistency(prog, chk):
                 f"`{key or kfc[-1]}` is a {ka}-axis attribute but its value depends on {wrong}-axis quantities (identifiers {sorted(set(ids))}, resolved through their let bindings): a quantity of the other axis leaks in",
             )
     chk.floor("A15.axis-consistency", n, 30, "geometry attribute write with a literal axis key")
+
+
+ROLE_OF_PARAM = {"start": "start", "end": "end", "middle": "middle", "length": "length", "extent": "length"}
+ROLE_OF_FIELD = {"xmin": ("x", "start"), "xmax": ("x", "end"), "cx": ("x", "middle"), "width": ("x", "length"), "ymin": ("y", "start"), "ymax": ("y", "end"), "cy": ("y", "middle"), "height": ("y", "length")}
+
+
+def _alts(pat):
+    if pat.get("p") == "or":
+        out = []
+        for q in pat["pats"]:
+            out += _alts(q)
+        return out
+    return [pat]
+
+
+def _pair_of(body):
+    """the (A, B) expressions an arm yields: Some((A, B)) / (A, B) / a block ending in one of those"""
+    n = body
+    while n.get("k") == "Block" and n.get("expr"):
+        n = n["expr"]
+    if n.get("k") == "Call" and hirq.callee_path(n).split("::")[-1] == "Some" and n["args"]:
+        n = n["args"][0]
+    if n.get("k") == "Tup" and len(n["items"]) == 2:
+        return n["items"]
+    return None
+
+
+def constraint_algebra(prog, chk):
+    from sa import linform as L
+    from fractions import Fraction
+
+    n_arms = 0
+    for fn, need_pairs in (("extent", True), ("three_point", False)):
+        b = prog.body("svgdx::position::Position::" + fn)
+        chk.touch(b)
+        h = prog.hir[b.id]
+        params = [p.get("name") for p in h["params"]]
+        target = None
+        for m in hirq.exprs(h["body"], "Match"):
+            sc = m["scrut"]
+            if sc.get("k") == "Tup" and all(it.get("k") == "Path" and (it.get("res") or {}).get("local") in ROLE_OF_PARAM for it in sc["items"]):
+                target = m
+                break
+        if target is None:
+            chk.anchor_missing("A17.constraint-algebra", f"Position::{fn}: match over the (start, end, middle, length) parameters not found")
+            continue
+        roles = [ROLE_OF_PARAM[it["res"]["local"]] for it in target["scrut"]["items"]]
+        fixed = {}  # constraints that always hold (three_point's extent parameter)
+        for p in params:
+            if p == "extent":
+                fixed["length"] = {p: Fraction(1)}
+        covered = set()
+        for arm in target["arms"]:
+            for alt in _alts(arm["pat"]):
+                if alt.get("p") != "tuple":
+                    continue
+                binds = {}
+                for i, q in enumerate(alt["pats"]):
+                    if q.get("p") == "tstruct" and q.get("pats") and q["pats"][0].get("p") == "bind":
+                        binds[roles[i]] = {q["pats"][0]["name"]: Fraction(1)}
+                if not binds:
+                    continue
+                n_arms += 1
+                key = f"{fn}:" + "+".join(sorted(binds))
+                pair = _pair_of(arm["body"])
+                where = b.where(line=arm.get("line"))
+                if pair is None:
+                    chk.bad("A17.constraint-algebra", key, where, f"Position::{fn}: the arm binding {sorted(binds)} does not yield a (start, end) pair the rule can read")
+                    continue
+                A, B = L.lin(pair[0]), L.lin(pair[1])
+                if A is None or B is None:
+                    chk.bad("A17.constraint-algebra", key, where, f"Position::{fn}: the arm binding {sorted(binds)} is not an affine combination of its constraints (min/max/abs or a call is applied): equivalent spellings of one box no longer agree")
+                    continue
+                cons = dict(fixed)
+                cons.update(binds)
+                bad = []
+                for role, v in cons.items():
+                    got = {"start": A, "end": B, "middle": L._scale(L._add(A, B), Fraction(1, 2)), "length": L._add(B, A, -1)}[role]
+                    if not L.equal(got, v):
+                        bad.append(f"{role}: result gives {L.show(got)}, constraint is {L.show(v)}")
+                covered.add(frozenset(binds))
+                chk.ob(not bad, "A17.constraint-algebra", key, where, f"Position::{fn} arm {sorted(binds)}: A = {L.show(A)}, B = {L.show(B)} satisfies every bound constraint exactly", f"Position::{fn} arm {sorted(binds)} yields A = {L.show(A)}, B = {L.show(B)} which violates its own constraints ({'; '.join(bad)}): this spelling places the shape differently from the equivalent ones")
+        if need_pairs:
+            import itertools
+            want = {frozenset(c) for c in itertools.combinations(["start", "end", "middle", "length"], 2)}
+            miss = sorted("+".join(sorted(x)) for x in want - covered)
+            chk.ob(not miss, "A17.constraint-algebra", f"{fn}:coverage", b.where(), "all six pairs of {start, end, middle, length} determine the extent", f"constraint pairs no longer handled by Position::{fn}: {miss}")
+        else:
+            want = {frozenset([r]) for r in ("start", "middle", "end")}
+            miss = sorted("+".join(sorted(x)) for x in want - covered)
+            chk.ob(not miss, "A17.constraint-algebra", f"{fn}:coverage", b.where(), "each of start / middle / end together with the extent determines the pair", f"single constraints no longer handled by Position::{fn}: {miss}")
+    chk.floor("A17.constraint-algebra", n_arms, 12, "constraint arm of extent / three_point")
+    # wiring of the call sites: fields are passed in the role of the parameter they bind, one axis per call
+    n_calls = 0
+    for b in prog.bodies.values():
+        if not b.path.startswith("svgdx::position::Position::") or b.id not in prog.hir:
+            continue
+        h = prog.hir[b.id]
+        for mc in hirq.exprs(h["body"], "MethodCall"):
+            if mc["name"] not in ("extent", "three_point"):
+                continue
+            callee = prog.hir[prog.body("svgdx::position::Position::" + mc["name"]).id]
+            cparams = [p.get("name") for p in callee["params"]][1:]
+            n_calls += 1
+            axes = set()
+            wrong = []
+            for i, a in enumerate(mc["args"]):
+                fc = hirq.field_chain(a)
+                if not fc or fc[-1] not in ROLE_OF_FIELD or i >= len(cparams):
+                    continue
+                ax, role = ROLE_OF_FIELD[fc[-1]]
+                axes.add(ax)
+                if ROLE_OF_PARAM.get(cparams[i]) != role:
+                    wrong.append(f"{fc[-1]} passed as `{cparams[i]}`")
+            key = f"{b.short}:{mc['name']}#{n_calls}"
+            chk.ob(not wrong and len(axes) == 1, "A15.constraint-wiring", key, b.where(line=mc.get("line")), f"{mc['name']}() receives {sorted(axes)}-axis fields in their own roles", f"{b.short}: {mc['name']}() is called with {wrong or 'fields of both axes ' + str(sorted(axes))}")
+    chk.floor("A15.constraint-wiring", n_calls, 4, "call of extent / three_point with position fields")
+
+
+def single_tokenizer(prog, chk):
+    """every path of split_compound_attr that produces a pair from a literal value goes through attr_split_cycle"""
+    b = prog.body(EL + "::split_compound_attr")
+    chk.touch(b)
+    toks = {bb for (bb, t, c) in b.call_sites(R.path_endswith("types::attr_split_cycle"))}
+    sw = [(bb, t) for (bb, t, c) in b.call_sites(lambda c: c.path.split("::")[-1] == "starts_with")]
+    if not toks or len(sw) != 1:
+        chk.anchor_missing("A16.single-tokenizer", f"split_compound_attr: attr_split_cycle calls ({len(toks)}) / reference-prefix test ({len(sw)}) not found")
+        return
+    st = b.term(sw[0][1]["t"])
+    if st["k"] != "switch":
+        chk.anchor_missing("A16.single-tokenizer", "split_compound_attr: the reference-prefix test does not branch")
+        return
+    tt, ft = R.switch_targets_bool(st)
+    rets = set(b.return_blocks)
+    leak = b.reach([ft], avoid=toks) & rets
+    chk.ob(not leak, "A16.single-tokenizer", "split_compound_attr:literal", b.where(), "a shorthand value that is not a reference is always split by attr_split_cycle (the shared tokenizer: blanks and/or commas)", "split_compound_attr can return a pair for a literal value without going through attr_split_cycle: some separator spelling (e.g. `1,2`) is no longer split like the others")
